@@ -107,8 +107,8 @@ def ValidPacket (T : Tables) : Prop :=
   T.refuse = "var ackMsgId = GetPairingAckID(m.Cmd); if ackMsgId == 0 { ackMsgId = m.Cmd }; return m.RefuseWith(ackMsgId, errno)" ∧
   T.refuseWith = "var pkt = New(command, m.Seq_, m.Flg|fatchoy.PFlagError, nil); pkt.Type_ = m.Type_; pkt.Node_ = m.Node_; pkt.Refers_ = m.Refers_; pkt.SetErrno(errno); return m.endpoint.SendPacket(pkt)" ∧
   T.unmarshalErr = "if (flag & fatchoy.PFlagError) != 0 { x, _ := binary.Varint(body) pkt.SetBody(x) } else { pkt.SetBody(body) }" ∧
-  T.v1Guard = "if len(body) > 0 { return unmarshalPacketBody(body, decrypt, pkt) }" ∧
-  T.v2Guard = "if len(body) > 0 { return unmarshalPacketBody(body, decrypt, pkt) }"
+  T.v1Guard = "if len(body) > 0 || pkt.Flag()&(fatchoy.PFlagCompressed|fatchoy.PFlagEncrypted) != 0 { return unmarshalPacketBody(body, decrypt, pkt) }" ∧
+  T.v2Guard = "if len(body) > 0 || pkt.Flag()&(fatchoy.PFlagCompressed|fatchoy.PFlagEncrypted) != 0 { return unmarshalPacketBody(body, decrypt, pkt) }"
 instance (T : Tables) : Decidable (ValidPacket T) := by unfold ValidPacket; infer_instance
 
 /-! ### bit-vector facts -/
